@@ -99,6 +99,11 @@ def step (s : UF) : Op → UF × Out
 
 def init (n : Nat) : UF := { parent := List.range n, count := List.replicate n 1 }
 
+/-- a history: operations applied left to right, with the list of results -/
+def run (s : UF) : List Op → UF × List Out
+  | [] => (s, [])
+  | o :: os => let (s', out) := step s o; let (s'', outs) := run s' os; (s'', out :: outs)
+
 def showOut : Out → String
   | .nat n => s!"nat {n}"
   | .bool b => s!"bool {showBool b}"
